@@ -27,6 +27,7 @@ def run(tier, seed):
         # names that use every ASCII letter (both ends of the alphabet), so that every letter's case folding is observable
         body.append(('e', 'quiz', {'size': '1', 'data-zoom': 'x', 'abcdefghijklmnopqrstuvwxyz': 'v', 'az': 'AZ'},
                      [('e', 'jkqvwxyz', {'title': 'z'}, [])]))
+        body.append(('e', 'k', {'data-é': 'v', 'sk': 'x'}, [('e', 'xé', {'class': 'é'}, []), ('e', 'task', {}, [])]))
         if rnd.random() < 0.6:
             # foreign content with mixed-case names (html5lib gives these elements the SVG / MathML namespace and its own
             # spelling of the names): in an HTML document they still match regardless of ASCII case
@@ -48,8 +49,19 @@ def run(tier, seed):
         pools = gen_selectors.pools_from_soup(tops[0][0])
         pools.pop('texts', None)
         pools['attrs'] = sorted(set(pools['attrs']) | {'type'})
-        ag = gen_selectors.AGen(rnd, feats=('core', 'case'), **pools)
+        ag = gen_selectors.AGen(rnd, feats=('core', 'case', 'ns'), prefixes=[], **pools)      # prefixes *| and | (no map): no effect on case rules
         sels = [ag.selector(1) for _ in range(6)]
+        # the type attribute's value, spelled in another case, with and without a namespace prefix and the i / s flags
+        typed = [e for e in tops[0][0].find_all(True) if isinstance(e.attrs.get('type'), str) and e.attrs['type']]
+        for _ in range(3):
+            if not typed:
+                break
+            v = rnd.choice(typed).attrs['type']
+            v2 = rnd.choice([v.upper(), v.lower(), v.swapcase(), v.title(), v])
+            at = (rnd.choice([None, '*', '', None]), rnd.choice(['type', 'TYPE', 'Type']), rnd.choice(['=', '=', '^=', '$=', '*=', '~=', '|=']), v2,
+                  rnd.choice([None, None, 'i', 's']))
+            a_ = [[{'ids': [], 'classes': [], 'attrs': [at], 'pseudos': []}]]
+            sels.append((gen_selectors.show_list(a_), a_))
         for top, label in tops:
             sc = e1.Scenario(top, label)
             sc.meta = {}
